@@ -730,7 +730,7 @@ func extractStatus(r cliResult) Val {
 // input: (fs cwd outdir pathflag roots opts buildroots)
 //   roots      = what the walk is presented with (the model reads only this): ((traw) | (tn <utree>)) ...
 //   buildroots = the same forest with build hints: ((traw n<present>) | (tn <utree with hints>)) ...
-//   opts       = (n<stdin> n<carv2>)
+//   opts       = (n<stdin> n<carv2> n<no output argument: run in the directory outdir names (logical path)>)
 // observation: (status realroot fs-after)
 func extractInput(fs, cwd Val, outdir, pathflag []byte, buildroots VL, opts Val) Val {
 	roots := VL{}
@@ -810,7 +810,14 @@ func runExtractCase(c *Ctx, in Val) Val {
 	if pf := vb(vnth(in, 3)); len(pf) > 0 {
 		args = append(args, "--path", string(pf))
 	}
-	args = append(args, outArg)
+	noArg := vn(vnth(opts, 2)) != 0
+	if noArg {
+		// no output directory argument: the tool extracts into os.Getwd(), which is the logical
+		// ($PWD) spelling of the directory the process was started in
+		cwdReal = outArg
+	} else {
+		args = append(args, outArg)
+	}
 	var stdin []byte
 	if useStdin {
 		stdin = payload
@@ -831,7 +838,8 @@ func init() {
 // input: (fs cwd outdir pathflag roots opts src srcpath dstpath)
 //   fs      = sandbox before extraction: source tree, empty output directory
 //   roots   = ((tn <utree>)): what `car create` builds from the source, as the walk sees it
-//   opts    = (n<version 1|2> n<no-wrap> n<mode: 0 -f file, 1 stdin from a file, 2 stdin from a pipe>)
+//   opts    = (n<version 1|2> n<no-wrap> n<mode: 0 -f file, 1 stdin from a file, 2 stdin from a pipe>
+//              n<no output argument: extract runs in the directory outdir names>)
 //   src     = (b<source argument of car create> | (b<source argument> ...)  ((b<digest> n<seed> n<len> n<zero tail> n<chunk repeats> b<explicit> n<zero head>) ...))
 //             recipes for contents longer than 64 bytes (the fs value carries only their digest)
 // observation: (status realroot fs-after (n<roots> n<printed = header root> n<root != proxy> n<root block present>))
@@ -960,17 +968,27 @@ func runCreateExtractCase(c *Ctx, in Val) Val {
 		}
 	}
 	var xr cliResult
+	xcwd := cwdReal
+	xargs := []string{"extract"}
+	if mode == 0 {
+		xargs = append(xargs, "-f", carPath)
+	}
+	if vn(vnth(opts, 3)) != 0 {
+		xcwd = outArg // no output argument: extract into the (logical) working directory
+	} else {
+		xargs = append(xargs, outArg)
+	}
 	switch mode {
 	case 0:
-		xr = runCar(c, cwdReal, nil, "extract", "-f", carPath, outArg)
+		xr = runCar(c, xcwd, nil, xargs...)
 	case 1:
-		xr = runCarStdinFile(c, cwdReal, carPath, "extract", outArg)
+		xr = runCarStdinFile(c, xcwd, carPath, xargs...)
 	default:
 		data, err := os.ReadFile(carPath)
 		if err != nil {
 			panic(err)
 		}
-		xr = runCar(c, cwdReal, data, "extract", outArg)
+		xr = runCar(c, xcwd, data, xargs...)
 	}
 	if debug {
 		fmt.Fprintf(os.Stderr, "car extract (mode %d) exit=%d stderr: %s\n", mode, xr.exit, xr.stderr)
